@@ -1148,7 +1148,11 @@ func runC02Case(c *Ctx, idx int, sp c02Spec) (out []*lib.Case, err error) {
 		Obs:   map[string]interface{}{"transpositions": lists.Transpos, "overlays": lists.Overlays, "moves": lists.Moves},
 		Coq:   c02ListsCase(ord, lists)}
 	defer func() { out = append(out, listsCase) }()
-	if sp.corr && rleSize(allData(sp.old, sp.nw)...) < 4000 {
+	// A failing in-place apply of a generated case (a known kind-swap finding) may depend on Go's
+	// map order in ways the four orders evaluated by the model do not cover: only the fixed corpus
+	// witnesses (at most two groups) are compared with the model when the oracle fails.
+	compare := sp.corr && (cs.Oracle == "" || strings.HasPrefix(sp.class, "corpus/"))
+	if compare && rleSize(allData(sp.old, sp.nw)...) < 4000 {
 		cs.Group = "commit"
 		cs.Coq = c02CoqCase(sp.old, sp.nw, ord, lists, distinct[0])
 		emit()
